@@ -381,18 +381,9 @@ class Base:
         tf = self.get_uf("truthy_obj", [IntS, IntS], z3.BoolSort())
         other = tf(r, getattr(st, "heap_epoch", z3.IntVal(0)))
         self.note("truthiness of an object of statically unknown class is an uninterpreted function of (object, havoc epoch)")
-        # containers by length; Token by its __bool__; classes without __bool__/__len__ are truthy
-        tok = self.classes.by_name.get("Token")
-        res = other
-        for cls in list(self.classes.ids):
-            if cls.__name__ == "Token":
-                res = z3.If(self.classes.isa(cls, c), self.obj_truthy(st, t, cls), res)
-            elif getattr(cls, "__bool__", None) is None and getattr(cls, "__len__", None) is None:
-                from .state import _all_subclasses
-
-                if not any("__bool__" in vars(s) or "__len__" in vars(s) for s in _all_subclasses(cls)):
-                    res = z3.If(self.classes.isa(cls, c), True, res)
-        return z3.If(z3.Or(c == smt.CLS_LIST, c == smt.CLS_DICT, c == smt.CLS_SET, c == smt.CLS_TUPLE), n > 0, z3.If(c == smt.CLS_FUNC, True, res))
+        # containers by length; every other object through the uninterpreted truthy_obj, which engine.uf_axioms pins
+        # to True for registered classes that define neither __bool__ nor __len__ (independent of registration order)
+        return z3.If(z3.Or(c == smt.CLS_LIST, c == smt.CLS_DICT, c == smt.CLS_SET, c == smt.CLS_TUPLE), n > 0, z3.If(c == smt.CLS_FUNC, True, other))
 
     def check_token_bool(self, cls):
         import inspect, ast
